@@ -623,6 +623,73 @@ fn snap_main(env: &mut Env<VS>, args: Vec<Field>) -> BFut<'_> {
     Box::pin(std::future::ready(BResult::new(st)))
 }
 
+/// `jobcheck LABEL` - evaluates the job-table invariants (C12) on the real
+/// `Env::jobs` of the caller and records the result; `$?` unchanged.
+fn jobcheck_main(env: &mut Env<VS>, args: Vec<Field>) -> BFut<'_> {
+    let label = strs(&args).join(" ");
+    let pid = env.system.getpid().0;
+    let table: Vec<String> = env
+        .jobs
+        .iter()
+        .map(|(i, j)| format!("[{i}]{}:{}", j.pid, crate::sim::state_name(j.state)))
+        .collect();
+    let summary = format!(
+        "{label} jobs={} cur={:?} prev={:?}",
+        table.join(","),
+        env.jobs.current_job(),
+        env.jobs.previous_job()
+    );
+    if let Some(ctl) = ctl() {
+        ctl.record(pid, "jobcheck", 0, 0, &summary);
+        if let Err((class, msg)) = crate::c12::check_invariants(&env.jobs) {
+            ctl.record(pid, "jobcheck-fail", 0, 0, &format!("{class}: {msg} at {summary}"));
+        }
+        // $! designates the most recent asynchronous job if it is still listed
+        let last = env.jobs.last_async_pid();
+        if last.0 != 0
+            && let Some(i) = env.jobs.find_by_pid(last)
+            && env.jobs.get(i).map(|j| j.pid) != Some(last)
+        {
+            ctl.record(pid, "jobcheck-fail", 0, 0, &format!("last-async: $! = {last} resolves to another job at {summary}"));
+        }
+    }
+    let st = env.exit_status;
+    Box::pin(std::future::ready(BResult::new(st)))
+}
+
+/// `selfstop` - the calling process stops itself (SIGSTOP); returns when it
+/// is continued.
+fn selfstop_main(env: &mut Env<VS>, _args: Vec<Field>) -> BFut<'_> {
+    use yash_env::system::SendSignal as _;
+    Box::pin(async move {
+        let sig = yash_env::system::r#virtual::SIGSTOP;
+        env.system.raise(sig).await.ok();
+        BResult::new(ExitStatus::SUCCESS)
+    })
+}
+
+/// `contall` - sends SIGCONT to every live child of the caller (so that a
+/// script can always finish, whatever the simulator stopped).
+fn contall_main(env: &mut Env<VS>, _args: Vec<Field>) -> BFut<'_> {
+    use yash_env::system::SendSignal as _;
+    Box::pin(async move {
+        let me = env.system.getpid();
+        let children: Vec<yash_env::job::Pid> = {
+            let state = world_state();
+            let st = state.borrow();
+            st.processes
+                .iter()
+                .filter(|(_, p)| p.ppid() == me && p.state().is_alive())
+                .map(|(pid, _)| *pid)
+                .collect()
+        };
+        for c in children {
+            env.system.kill(c, Some(yash_env::system::r#virtual::SIGCONT)).await.ok();
+        }
+        BResult::new(ExitStatus::SUCCESS)
+    })
+}
+
 pub fn virtual_probes() -> Vec<(&'static str, Builtin<VS>)> {
     let mut v = generic_probes::<VS>();
     v.push(("mark", Builtin::new(Type::Mandatory, mark_main)));
@@ -630,5 +697,8 @@ pub fn virtual_probes() -> Vec<(&'static str, Builtin<VS>)> {
     v.push(("tell", Builtin::new(Type::Mandatory, tell_main)));
     v.push(("io", Builtin::new(Type::Mandatory, io_main)));
     v.push(("snap", Builtin::new(Type::Mandatory, snap_main)));
+    v.push(("jobcheck", Builtin::new(Type::Mandatory, jobcheck_main)));
+    v.push(("selfstop", Builtin::new(Type::Mandatory, selfstop_main)));
+    v.push(("contall", Builtin::new(Type::Mandatory, contall_main)));
     v
 }
